@@ -116,7 +116,12 @@ pub fn run_measured_os(exe: &Path, args: &[std::ffi::OsString], cwd: &Path, mem_
     use std::os::unix::process::{CommandExt, ExitStatusExt};
     static N: std::sync::atomic::AtomicU64 = std::sync::atomic::AtomicU64::new(0);
     let rss_file = cwd.join(format!(".rss-{}-{}", std::process::id(), N.fetch_add(1, std::sync::atomic::Ordering::Relaxed)));
-    let sh = format!("ulimit -v {mem_kib}; ulimit -c 0; exec /usr/bin/time -o \"$RSS_FILE\" -f %M \"$0\" \"$@\"");
+    // (without /usr/bin/time the run is made all the same, only the peak resident set is not measured)
+    let sh = if Path::new("/usr/bin/time").exists() {
+        format!("ulimit -v {mem_kib}; ulimit -c 0; exec /usr/bin/time -o \"$RSS_FILE\" -f %M \"$0\" \"$@\"")
+    } else {
+        format!("ulimit -v {mem_kib}; ulimit -c 0; exec \"$0\" \"$@\"")
+    };
     let mut cmd = Command::new("sh");
     cmd.arg("-c").arg(sh).arg(exe);
     for a in args {
